@@ -51,6 +51,8 @@ type Frame struct {
 	freeLocs     map[*ssa.FreeVar]*Loc // inlined closures: free variable -> outer location
 	retCount     int
 	rangeMaps    map[ssa.Value]ssa.Value
+	lastCallee   string
+	lastOrd      int
 }
 
 var frameCounter int
@@ -683,6 +685,15 @@ func (fr *Frame) unop(in *ssa.UnOp, st *State, pc Term) {
 		fr.nilCheck(l, pc, "load")
 		v := fr.loadLoc(st, l, pc)
 		fr.setVal(in, v)
+		// a local variable that only ever holds one closure: calls through
+		// it are calls of that closure
+		if a, ok := in.X.(*ssa.Alloc); ok {
+			if mc := singleClosureStore(a); mc != nil {
+				if ci, ok := fr.closures[mc]; ok {
+					fr.closures[in] = ci
+				}
+			}
+		}
 	case token.NOT:
 		fr.setVal(in, not(fr.val(in.X)))
 	case token.SUB:
@@ -1164,7 +1175,87 @@ func (fr *Frame) havocCaptured(st *State, pc Term) {
 	}
 }
 
+// isCaptured reports whether a closure of the function captures the variable
+// and may write it (directly, or by handing it on to a nested closure).
 func isCaptured(a *ssa.Alloc) bool {
+	if a.Referrers() == nil {
+		return false
+	}
+	for _, r := range *a.Referrers() {
+		if mc, ok := r.(*ssa.MakeClosure); ok {
+			f := mc.Fn.(*ssa.Function)
+			for i, b := range mc.Bindings {
+				if b == ssa.Value(a) && i < len(f.FreeVars) && freeVarWritten(f, f.FreeVars[i], 0) {
+					return true
+				}
+			}
+		}
+	}
+	return false
+}
+
+// singleClosureStore returns the closure stored into a local variable when
+// that is the only store to it and its address does not escape.
+func singleClosureStore(a *ssa.Alloc) *ssa.MakeClosure {
+	refs := a.Referrers()
+	if refs == nil {
+		return nil
+	}
+	var mc *ssa.MakeClosure
+	for _, r := range *refs {
+		switch r := r.(type) {
+		case *ssa.Store:
+			if r.Addr != ssa.Value(a) {
+				return nil
+			}
+			m, ok := r.Val.(*ssa.MakeClosure)
+			if !ok || mc != nil {
+				return nil
+			}
+			mc = m
+		case *ssa.UnOp, *ssa.DebugRef:
+		default:
+			return nil
+		}
+	}
+	return mc
+}
+
+func freeVarWritten(f *ssa.Function, fv *ssa.FreeVar, depth int) bool {
+	if depth > 4 {
+		return true
+	}
+	for _, b := range f.Blocks {
+		for _, in := range b.Instrs {
+			switch in := in.(type) {
+			case *ssa.Store:
+				if addrRoot(in.Addr) == ssa.Value(fv) {
+					return true
+				}
+			case *ssa.MakeClosure:
+				g := in.Fn.(*ssa.Function)
+				for i, bd := range in.Bindings {
+					if bd == ssa.Value(fv) && i < len(g.FreeVars) && freeVarWritten(g, g.FreeVars[i], depth+1) {
+						return true
+					}
+				}
+			}
+		}
+	}
+	// any other use of the address (passing it on) counts as a write
+	if refs := fv.Referrers(); refs != nil {
+		for _, r := range *refs {
+			switch r.(type) {
+			case *ssa.Store, *ssa.UnOp, *ssa.FieldAddr, *ssa.IndexAddr, *ssa.MakeClosure, *ssa.DebugRef:
+			default:
+				return true
+			}
+		}
+	}
+	return false
+}
+
+func isCapturedAtAll(a *ssa.Alloc) bool {
 	if a.Referrers() == nil {
 		return false
 	}
